@@ -5,36 +5,41 @@ import (
 	"fmt"
 	"os"
 	"os/exec"
+	"os/signal"
 	"path/filepath"
 	"runtime"
 	"sort"
 	"strconv"
 	"strings"
+	"sync"
+	"sync/atomic"
+	"syscall"
 	"time"
 )
 
 // Partial is what one worker process hands back to the orchestrator.
 type Partial struct {
-	Shard         int                 `json:"shard"`
-	Runs          int64               `json:"runs"`
-	NonTrivial    int64               `json:"nontrivial"`
-	Steps         int64               `json:"steps"`
-	SimTimeNs     int64               `json:"sim_time_ns"`
-	Faults        Counters            `json:"faults"`
-	Probes        Counters            `json:"probes"`
-	Strategies    Counters            `json:"strategies"`
-	Extra         Counters            `json:"extra"`
-	Classes       []uint64            `json:"classes"`
-	ClassesCapped bool                `json:"classes_capped"`
+	Shard         int                      `json:"shard"`
+	Runs          int64                    `json:"runs"`
+	NonTrivial    int64                    `json:"nontrivial"`
+	Steps         int64                    `json:"steps"`
+	SimTimeNs     int64                    `json:"sim_time_ns"`
+	Faults        Counters                 `json:"faults"`
+	Probes        Counters                 `json:"probes"`
+	Strategies    Counters                 `json:"strategies"`
+	Extra         Counters                 `json:"extra"`
+	Classes       []uint64                 `json:"classes"`
+	ClassesCapped bool                     `json:"classes_capped"`
 	Samples       []map[string]interface{} `json:"samples"`
-	KnownHits     map[string]int64    `json:"known_hits"`
-	Candidate     string              `json:"candidate"`
-	Infra         string              `json:"infra"`
-	WallS         float64             `json:"wall_s"`
-	FirstRun      uint64              `json:"first_run"`
-	LastRun       uint64              `json:"last_run"`
-	StoppedEarly  bool                `json:"stopped_early"`
-	EnumDone      int64               `json:"enum_done"`
+	KnownHits     map[string]int64         `json:"known_hits"`
+	Candidate     string                   `json:"candidate"`
+	Infra         string                   `json:"infra"`
+	WallS         float64                  `json:"wall_s"`
+	FirstRun      uint64                   `json:"first_run"`
+	LastRun       uint64                   `json:"last_run"`
+	StoppedEarly  bool                     `json:"stopped_early"`
+	Cancelled     bool                     `json:"cancelled,omitempty"`
+	EnumDone      int64                    `json:"enum_done"`
 }
 
 const classCap = 1 << 19
@@ -134,6 +139,16 @@ func Worker(p Property, e *Env, shard, shards int, out string) int {
 		}
 	}
 	opts := RunOpts{Tier: e.Tier, IsKnown: e.isKnown}
+	// the orchestrator asks the remaining workers to wind up once another worker has a
+	// candidate: the verdict of the check is already decided then (real signal, never read
+	// inside a run, so it cannot influence any execution)
+	var cancelled int32
+	sigc := make(chan os.Signal, 1)
+	signal.Notify(sigc, syscall.SIGTERM)
+	go func() {
+		<-sigc
+		atomic.StoreInt32(&cancelled, 1)
+	}()
 	finish := func(code int) int {
 		part.WallS = time.Since(start).Seconds()
 		part.Classes = make([]uint64, 0, len(classes))
@@ -226,6 +241,11 @@ func Worker(p Property, e *Env, shard, shards int, out string) int {
 	for i := shard; i < total; i += shards {
 		if i%64 == shard%64 && time.Since(start) > soft {
 			part.StoppedEarly = true
+			break
+		}
+		if atomic.LoadInt32(&cancelled) != 0 {
+			part.StoppedEarly = true
+			part.Cancelled = true
 			break
 		}
 		run := uint64(i)
@@ -517,15 +537,52 @@ func Check(p Property, e *Env) int {
 	outs := make([]string, w)
 	codes := make([]int, w)
 	done := make(chan int, w)
+	cmds := make([]*exec.Cmd, w)
+	var (
+		mu       sync.Mutex
+		running  = map[int]bool{}
+		killed   = map[int]bool{}
+		windDown sync.Once
+	)
+	// once one worker has a candidate the verdict is decided: the others get a grace period
+	// to finish the run they are in, then a SIGTERM (wind up after the current run), then a kill
+	stopOthers := func() {
+		grace := 20 * time.Second
+		if e.Tier == "quick" {
+			grace = 5 * time.Second
+		}
+		time.Sleep(grace)
+		mu.Lock()
+		for i := range running {
+			cmds[i].Process.Signal(syscall.SIGTERM)
+		}
+		mu.Unlock()
+		time.Sleep(grace)
+		mu.Lock()
+		for i := range running {
+			killed[i] = true
+			cmds[i].Process.Kill()
+		}
+		mu.Unlock()
+	}
 	for i := 0; i < w; i++ {
 		outs[i] = filepath.Join(e.Scratch, fmt.Sprintf("partial-%s-%d.json", id, i))
 		os.Remove(outs[i])
+		cmd := exec.Command(e.Self, "worker", id, e.Tier, strconv.Itoa(i), strconv.Itoa(w), outs[i])
+		cmd.Stdout = os.Stdout
+		cmd.Stderr = os.Stderr
+		cmd.Env = append(os.Environ(), "GOMAXPROCS=2")
+		cmds[i] = cmd
+		if err := cmd.Start(); err != nil {
+			fmt.Printf("INFRA %s: cannot start worker %d: %v\n", id, i, err)
+			return 2
+		}
+		running[i] = true
 		go func(i int) {
-			cmd := exec.Command(e.Self, "worker", id, e.Tier, strconv.Itoa(i), strconv.Itoa(w), outs[i])
-			cmd.Stdout = os.Stdout
-			cmd.Stderr = os.Stderr
-			cmd.Env = append(os.Environ(), "GOMAXPROCS=2")
-			err := cmd.Run()
+			err := cmds[i].Wait()
+			mu.Lock()
+			delete(running, i)
+			mu.Unlock()
 			codes[i] = 0
 			if err != nil {
 				if ee, ok := err.(*exec.ExitError); ok {
@@ -534,6 +591,9 @@ func Check(p Property, e *Env) int {
 					codes[i] = 2
 				}
 			}
+			if codes[i] == 1 {
+				windDown.Do(func() { go stopOthers() })
+			}
 			done <- i
 		}(i)
 	}
@@ -541,8 +601,18 @@ func Check(p Property, e *Env) int {
 		<-done
 	}
 	parts := make([]*Partial, 0, w)
+	nKilled := 0
 	for i := 0; i < w; i++ {
 		b, err := os.ReadFile(outs[i])
+		mu.Lock()
+		wasKilled := killed[i]
+		mu.Unlock()
+		if wasKilled && (err != nil || !json.Valid(b)) {
+			// stopped by the orchestrator in the middle of a run after another worker's
+			// candidate: it has nothing to report and nothing is concluded from it
+			nKilled++
+			continue
+		}
 		if err != nil {
 			fmt.Printf("INFRA %s: worker %d left no result (exit %d): %v\n", id, i, codes[i], err)
 			return 2
@@ -568,6 +638,9 @@ func Check(p Property, e *Env) int {
 	// reproduce is retried a few times (the code under test may itself be nondeterministic, see
 	// ReplayFile.Flaky) and, if it still does not, is listed as unconfirmed; the check exits 2
 	// only if no candidate at all could be confirmed.
+	if nKilled > 0 {
+		fmt.Printf("note: %d worker(s) were stopped in the middle of a run after another worker reported a candidate\n", nKilled)
+	}
 	var confirmed, unconfirmed []string
 	for _, pt := range parts {
 		if pt.Candidate == "" {
@@ -750,30 +823,30 @@ func writeEvidence(e *Env, ev *evidence, d Description, pre *Result, parts []*Pa
 		perHour = float64(m.Runs) / workerWall * 3600
 	}
 	cov := map[string]interface{}{
-		"evaluations":         m.Runs + preEvals + m.EnumDone,
-		"simulated_runs":      m.Runs,
-		"enumerated_cases":    preEvals + m.EnumDone,
+		"evaluations":                m.Runs + preEvals + m.EnumDone,
+		"simulated_runs":             m.Runs,
+		"enumerated_cases":           preEvals + m.EnumDone,
 		"enumerated_part_exhaustive": m.EnumDone > 0,
-		"distinct_nontrivial": distinct,
-		"nontrivial_runs":     m.NonTrivial,
-		"distinct_capped":     capped,
-		"rule":                d.Rule,
-		"samples":             samples,
-		"exhaustive":          false,
-		"runs_per_hour":       int64(perHour),
-		"seeds":               map[string]interface{}{"verif_seed": e.Seed, "run_seed": "splitmix(VERIF_SEED, property, run index)", "run_indices": m.Runs},
-		"sim_steps":           m.Steps,
-		"sim_time_ns":         m.SimTimeNs,
-		"fault_counts":        m.Faults,
-		"probes":              m.Probes,
-		"strategies":          m.Strategies,
-		"measures":            m.Extra,
-		"components":          map[string]interface{}{"real": d.Real, "stub": d.Stub},
-		"determinism_selftest": det,
-		"workers":             e.Workers,
-		"gomaxprocs_host":     runtime.NumCPU(),
-		"stopped_early":       early,
-		"known_finding_hits":  knownHits,
+		"distinct_nontrivial":        distinct,
+		"nontrivial_runs":            m.NonTrivial,
+		"distinct_capped":            capped,
+		"rule":                       d.Rule,
+		"samples":                    samples,
+		"exhaustive":                 false,
+		"runs_per_hour":              int64(perHour),
+		"seeds":                      map[string]interface{}{"verif_seed": e.Seed, "run_seed": "splitmix(VERIF_SEED, property, run index)", "run_indices": m.Runs},
+		"sim_steps":                  m.Steps,
+		"sim_time_ns":                m.SimTimeNs,
+		"fault_counts":               m.Faults,
+		"probes":                     m.Probes,
+		"strategies":                 m.Strategies,
+		"measures":                   m.Extra,
+		"components":                 map[string]interface{}{"real": d.Real, "stub": d.Stub},
+		"determinism_selftest":       det,
+		"workers":                    e.Workers,
+		"gomaxprocs_host":            runtime.NumCPU(),
+		"stopped_early":              early,
+		"known_finding_hits":         knownHits,
 	}
 	for k, v := range d.Notes {
 		cov[k] = v
